@@ -33,6 +33,7 @@ S_DATA = [
     "x, y = y, x",
     "x, y = y, x + y",
     "x = x + 1 {1/2} x - 1",
+    "x, y = 0, x + y",
 ]
 S_DATA_MORE = [
     "x = x*c",
@@ -50,8 +51,11 @@ S_IF = [
     "if c == 1:\n x = x + 1\nelse:\n x = x - y\nend",
     "if c == 0:\n x = 2*x\nelif c == 1:\n y = y + 1\nelse:\n x = y\nend",
     "if c == 1:\n c = Bernoulli(1/2)\n x = x + 1\nend",
+    "if c >= 1 || c == 2:\n x = x + 1\nend",
 ]
 S_IF_MORE = [
+    "if c == 0 || c <= 1:\n y = y + 1\nelse:\n x = x + 1\nend",
+    "if !(c == 0) || c == 2:\n x = x + 2\nend",
     "if c < 1:\n x = x + 2\nend",
     "if c >= 1:\n x = x + 1\n x = 2*x\nend",
     "if !(c == 1):\n y = y + 1\nend",
